@@ -128,6 +128,22 @@ class SGraph:
                     D[i][j] = c if D[i][j] is None else sx.ite(sx.lt(c, D[i][j]), c, D[i][j])
         return [[math.inf if x is None else wrap(x) for x in row] for row in D]
 
+    def subgraph(self, nodes):
+        nodes = [int(v) for v in nodes]
+        idx = {v: k for k, v in enumerate(nodes)}
+        present = {}
+        remap = {}
+        for (i, j), p in self.present.items():
+            if i in idx and j in idx and p is not False:
+                a, b = idx[i], idx[j]
+                key = (a, b) if (self.directed or a < b) else (b, a)
+                present[key] = p
+                remap[key] = (i, j)
+        sub = SSubgraph(len(nodes), present, self.directed)
+        for name, table in self._store.items():
+            sub._store[name] = {k: table[remap[k]] for k in present if remap[k] in table}
+        return sub
+
     def connected_components(self):
         n = self.n
         seen = [False] * n
@@ -184,10 +200,10 @@ class SSubgraph(SGraph):
         n = self.n
         A = [[0] * n for _ in range(n)]
         for (i, j), p in self.present.items():
-            if p is True:
-                A[i][j] = 1
-                if not self.directed:
-                    A[j][i] = 1
+            v = 1 if p is True else wrap(sx.ite(p, 1, 0))
+            A[i][j] = v
+            if not self.directed:
+                A[j][i] = v
         return type_data(A)
 
 
@@ -217,11 +233,14 @@ def bits_adjacency(n, directed=False, prefix="a"):
 def concrete_adjacency(G, directed=False):
     n = len(G)
     A = np.zeros((n, n), dtype=object)
+    for i in range(n):
+        for j in range(n):
+            A[i, j] = SV(0)
     present = {}
     for i in range(n):
         for j in range(n):
             if G[i][j]:
-                A[i, j] = 1
+                A[i, j] = SV(1)
                 if directed or i < j:
                     present[(i, j)] = True
     return SymNd(A), present
